@@ -58,7 +58,7 @@ def run(ck, prog):
     ck.attempt(_walk_and_compare, ck, prog)
     ck.attempt(_permutant_builder, ck, prog, cmap)
     ck.attempt(_dep, ck, prog)
-    check_api(ck, prog, [("get_deltaMax", "deltaMax", None)])
+    ck.attempt(check_api, ck, prog, [("get_deltaMax", "deltaMax", None)])
 
 
 def _symbols(ck, prog):
